@@ -39,6 +39,7 @@ impl Prop for C11Prop {
             lifecycle_pct: 25,
             keyings: 1,
             boundary_per_mille: 8,
+            huge_one_in: 1500,
         }
         .gen("C11", seed, idx / 8 * 7 + idx % 8);
         let k = match tier {
@@ -264,7 +265,7 @@ impl Prop for C11Prop {
         }
     }
     fn rule(&self) -> String {
-        "single-edge graphs, directed and undirected, with and without self-loops, isolated and degree-1 nodes, n <= 16 (cliques, G(n,p), stars, grids, bipartite, lifecycle-built), unweighted or positive weights (dyadic, integer, decimal), under 3 (quick) / 5 (thorough) hash keyings; clustering (undirected, Fagiolo directed, Onnela weighted), average_clustering, triangles, transitivity, generalized_degree, square_clustering vs the definitions at 1e-9, coefficients in [0,1], for all nodes and for random non-empty proper subsets (keys = subset, values = full computation); one case in eight is a multi-edge graph, which must be refused with WrongMethod; directed graphs must be refused by the undirected-only functions. distinct_nontrivial = distinct graphs containing a triangle".into()
+        "single-edge graphs, directed and undirected, with and without self-loops, isolated and degree-1 nodes, n <= 16 (cliques, G(n,p), stars, grids, bipartite, lifecycle-built), unweighted or positive weights (dyadic, integer, decimal), under 3 (quick) / 5 (thorough) hash keyings; clustering (undirected, Fagiolo directed, Onnela weighted), average_clustering, triangles, transitivity, generalized_degree, square_clustering vs the definitions at 1e-9, coefficients in [0,1], for all nodes and for random non-empty proper subsets (keys = subset, values = full computation); one case in eight is a multi-edge graph, which must be refused with WrongMethod; directed graphs must be refused by the undirected-only functions. distinct_nontrivial = distinct graphs containing a triangle; one case in 1500 is a dense graph (1-3 blocks, 60-300 nodes) with 2 100 - 12 500 stored edges under a pool of 2-16 workers (strategy thresholds)".into()
     }
     fn assumptions(&self) -> Vec<String> {
         vec!["weighted clustering: either max-weight convention is accepted when a self-loop carries the largest weight".into(), "average_clustering over an empty counted set is not checked (0/0)".into(), "square_clustering (no error channel) is exercised on undirected graphs only".into()]
